@@ -266,7 +266,7 @@ func (w *World) checkArrayIterators(n *Node) error {
 	// invalid ranges
 	nop := func(atree.Value) (bool, error) { return true, nil }
 	type bad struct{ s, e uint64 }
-	for _, b := range []bad{{L + 1, L + 1}, {0, L + 1}, {L + 2, L + 5}, {L, L + 1}} {
+	for _, b := range []bad{{L + 1, L + 1}, {0, L + 1}, {L + 2, L + 5}, {L, L + 1}, {1 << 32, 1<<32 + 1}, {0, 1<<32 + L}, {1 << 32, 1<<32 + L}, {0, ^uint64(0)}, {1 << 63, 1<<63 + L}} {
 		for _, ro := range []bool{false, true} {
 			var err error
 			if ro {
